@@ -456,6 +456,7 @@ func workerBody(prop string, h Harness, opt Options) {
 	maxRuns := envInt("JSIM_MAXRUNS", 1<<30)
 	minBudget := int64(envInt("JSIM_MIN_MS", 20000))
 	keepHashes := mode == "selftest"
+	verbose := os.Getenv("JSIM_VERBOSE") != ""
 	start := nowMs()
 	wo := WorkerOut{Prop: prop, Worker: w, GOMAXPROCS: runtime.GOMAXPROCS(0), Faults: map[string]int{}, Probes: map[string]int{}}
 	if keepHashes {
@@ -473,6 +474,12 @@ func workerBody(prop string, h Harness, opt Options) {
 			seed = tape.Mix(base, tape.HashString(prop), uint64(i)) // same seeds in every process
 		} else {
 			seed = tape.Mix(base, tape.HashString(prop), uint64(w), uint64(i))
+		}
+		if one := envU64("JSIM_ONE_SEED", 0); one != 0 {
+			seed = one
+		}
+		if verbose {
+			fmt.Fprintf(os.Stderr, "run %d seed %d t=%dms\n", i, seed, nowMs()-start)
 		}
 		r := Exec(h, prop, tier, seed, opt)
 		wo.Runs++
